@@ -35,7 +35,8 @@ pub fn generate(run_seed: u64, index: u64, _tier: Tier) -> Case {
     let item = *rng.pick(&["1KiB", "2KiB", "64KiB", "1MiB"]);
     // a memory limit below the item size limit must not change what is accepted
     // (it only matters to the random eviction policy, which never refuses a store)
-    let memory = *rng.pick(&["1GiB", "64MiB", "16KiB", "512B"]);
+    // (4 GiB and more do not fit 32 bits)
+    let memory = *rng.pick(&["1GiB", "64MiB", "16KiB", "512B", "4GiB", "8GiB", "4097MiB"]);
     let port = 12000 + (index % 20000);
     let ttl_probe = index % 6 == 5;
     // the listen backlog is a configuration knob like the others: it must not change behaviour
@@ -179,6 +180,14 @@ pub fn execute(case: &Case) -> Outcome {
         let mut add = Request::store(op::ADD, b"cfg", b"x", 0, 0, 0);
         add.opaque = 4;
         step(&mut c, add, "add on a present key", &|r| r.status == status::EXISTS, &mut viols, &mut fp);
+        // a second key: with a few dozen bytes stored no configured memory limit is reached,
+        // so the first item must still be there
+        let mut set2 = Request::store(op::SET, b"cfg2", b"other", 7, 0, 0);
+        set2.opaque = 40;
+        step(&mut c, set2, "set of a second key", &|r| r.status == status::OK, &mut viols, &mut fp);
+        let mut get1 = Request::get(op::GET, b"cfg");
+        get1.opaque = 41;
+        step(&mut c, get1, "get of the first key after a second one was stored (memory limit not reached)", &|r| r.status == status::OK && r.value() == b"42", &mut viols, &mut fp);
         // ---- (2) the configured item size limit is the one enforced
         let big = vec![b'z'; item as usize + 1];
         let mut over = Request::store(op::SET, b"big", &big, 0, 0, 0);
